@@ -235,7 +235,13 @@ class GC(FileStorageFormatter):
             while pos < end:
                 dh = self._read_data_header(pos)
                 self.checkData(th, tpos, dh, pos)
-                if dh.plen or dh.back:
+                if th.status == 'u':
+                    # The records of an undone transaction (copied from
+                    # an old source with its status) are not current:
+                    # neither the storage nor the open-time scan index
+                    # them.
+                    pass
+                elif dh.plen or dh.back:
                     self.oid2curpos[dh.oid] = pos
                 else:
                     if dh.oid in self.oid2curpos:
@@ -684,7 +690,9 @@ class FileStoragePacker(FileStorageFormatter):
         self._tfile.write(p64(tlen))
         ipos += 8
 
-        self.index.update(self.tindex)
+        if th.status != 'u':
+            # (the records of an undone transaction are not current)
+            self.index.update(self.tindex)
         self.tindex.clear()
         self._commit_lock.acquire()
         self.locked = True
